@@ -253,3 +253,94 @@ Qed.
 Corollary c15_helpers_first_safe p it :
   forallb p (c15_item_docs_helpers_first it) = forallb p (c15_item_generated it) && forallb p (c15_item_docs it).
 Proof. now rewrite (c15_forallb_perm p _ _ (c15_helpers_first_perm it)), forallb_app. Qed.
+
+(* ================= neutrality of printed code: generic facts ================= *)
+From TS Require Import Model.Lang.Common Proofs.BackCommon.
+
+Ltac c15_split_andb :=
+  repeat match goal with H : _ && _ = true |- _ => apply andb_true_iff in H as [? ?] end.
+
+(* decompose a rendered text along its ++ structure: comment fragments by [frag], sub-renderers by [tac],
+   everything else is a code atom whose side condition [atom] closes *)
+Ltac c15_decomp frag tac atom :=
+  repeat first [ frag | tac | apply Decomp_app | apply Decomp_code; atom ].
+
+Lemma c15_plain_join l sep ss :
+  c15_plain l sep = true -> forallb (c15_plain l) ss = true -> c15_plain l (join sep ss) = true.
+Proof.
+  intros Hs. induction ss as [|x [|y r] IH]; intros H; [reflexivity| |].
+  - cbn [join]. cbn [forallb] in H. now apply andb_true_iff in H as [H _].
+  - change (join sep (x :: y :: r)) with (x ++ sep ++ join sep (y :: r)).
+    cbn [forallb] in H. apply andb_true_iff in H as [Hx Hr]. rewrite !c15_plain_app, Hx, Hs. cbn [andb]. now apply IH.
+Qed.
+
+Lemma c15_plain_generics_suffix l gs : forallb (c15_plain l) gs = true -> c15_plain l (generics_suffix gs) = true.
+Proof.
+  intros H. unfold generics_suffix. destruct gs as [|g r]; [reflexivity|].
+  rewrite !c15_plain_app, c15_plain_join; [now destruct l| now destruct l |exact H].
+Qed.
+
+Lemma c15_forallb_map {A B} (f : A -> B) (p : B -> bool) xs : forallb p (map f xs) = forallb (fun x => p (f x)) xs.
+Proof. induction xs as [|x r IH]; [reflexivity|]. cbn [map forallb]. now rewrite IH. Qed.
+
+Lemma c15_forallb_repeat {A} (p : A -> bool) x n : p x = true -> forallb p (repeat x n) = true.
+Proof. intros H. induction n; [reflexivity|]. cbn [repeat forallb]. now rewrite H. Qed.
+
+Lemma c15_Forall2_forallb {A B} (R : A -> B -> Prop) (p : A -> bool) (q : B -> bool) l r :
+  Forall2 R l r -> (forall x y, R x y -> p x = true -> q y = true) -> forallb p l = true -> forallb q r = true.
+Proof.
+  induction 1 as [|x y l r Hxy _ IH]; intros HR H; [reflexivity|].
+  cbn [forallb] in *. apply andb_true_iff in H as [Hx Hl]. rewrite (HR x y Hxy Hx). now apply IH.
+Qed.
+
+Lemma c15_tmap_get_plain l m k v : c15_mappings_plain l m = true -> tmap_get m k = Some v -> c15_plain l v = true.
+Proof.
+  unfold c15_mappings_plain. induction m as [|[a b] r IH]; [discriminate|].
+  cbn [forallb tmap_get snd]. intros H. apply andb_true_iff in H as [Hb Hr].
+  destruct (str_eqb a k); [intros E; injection E as <-; exact Hb|now apply IH].
+Qed.
+
+(* decimal digits are plain in all six languages *)
+Lemma c15_digit_plain l d : d < 10 -> c15_plain_char l (48 + d) = true.
+Proof.
+  intros H. assert (E : In d [0;1;2;3;4;5;6;7;8;9]) by (cbn; lia).
+  cbn in E. destruct l; repeat (destruct E as [<-|E]; [reflexivity|]); destruct E.
+Qed.
+
+Lemma c15_plain_dec_fuel l f n acc : c15_plain l acc = true -> c15_plain l (dec_fuel f n acc) = true.
+Proof.
+  revert n acc. induction f as [|f IH]; intros n acc H; [exact H|].
+  cbn [dec_fuel]. assert (H' : c15_plain l ((48 + n mod 10) :: acc) = true).
+  { unfold c15_plain in *. cbn [forallb]. rewrite H, c15_digit_plain; [reflexivity|]. apply N.mod_lt. lia. }
+  destruct (n / 10 =? 0); [exact H'|now apply IH].
+Qed.
+
+Lemma c15_plain_dec_of_Z l z : c15_plain l (dec_of_Z z) = true.
+Proof.
+  destruct z as [|p|p]; cbn [dec_of_Z]; [now destruct l|now apply c15_plain_dec_fuel|].
+  unfold c15_plain. cbn [forallb]. replace (c15_plain_char l 45) with true by now destruct l.
+  now apply c15_plain_dec_fuel.
+Qed.
+
+(* the argument loop inside every format_type model is mmapM *)
+Lemma c15_go_is_mmapM {St A B} (f : A -> M St B) (l : list A) :
+  (fix go (l : list A) : M St (list B) :=
+     match l with
+     | [] => ret []
+     | x :: r => mbind (f x) (fun y => mbind (go r) (fun ys => ret (y :: ys)))
+     end) l = mmapM f l.
+Proof. induction l as [|x r IH]; cbn [mmapM]; [reflexivity|]. rewrite IH. reflexivity. Qed.
+
+(* mmapM with a per-element fact that is only available for the elements of the list *)
+Lemma c15_mmapM_Forall {St A B} (f : A -> M St B) (Q : B -> Prop) l :
+  Forall (fun x => forall s y s', f x s = Ok (y, s') -> Q y) l ->
+  forall s ys s', mmapM f l s = Ok (ys, s') -> Forall Q ys.
+Proof.
+  induction 1 as [|x l Hx _ IH]; intros s ys s' H; cbn [mmapM] in H.
+  - unfold ret in H. injection H as <- _. constructor.
+  - apply mbind_ok in H as (y & s1 & Hy & H). apply mbind_ok in H as (ys' & s2 & Hys & H).
+    unfold ret in H. injection H as <- _. constructor; eauto.
+Qed.
+
+Lemma c15_Forall_forallb {A} (p : A -> bool) l : Forall (fun x => p x = true) l -> forallb p l = true.
+Proof. induction 1; [reflexivity|]. cbn [forallb]. now rewrite H. Qed.
